@@ -96,11 +96,12 @@ func H_C02_load() {
 // H_C02_roundtrip: arbitrary offsets -> real Save -> store -> real Load:
 // all four durable fields identical for every 64-bit value.
 func H_C02_roundtrip() {
+	vNVcur = 2
 	fc := &vfakeConsumer{}
 	fm := vNewFakeMetadata()
 	s := vNewStream(fc, fm)
 	var in [vNVB]*models.Offset
-	for vb := 0; vb < vNVB; vb++ {
+	for vb := 0; vb < vNV(); vb++ {
 		in[vb] = vOffset("in")
 		s.offsets.Store(uint16(vb), in[vb])
 		s.dirtyOffsets.Store(uint16(vb), true)
@@ -110,11 +111,11 @@ func H_C02_roundtrip() {
 	assert(len(fm.calls) == 1, "one save")
 	s2 := vNewStream(&vfakeConsumer{}, fm)
 	cp := s2.checkpoint.(*checkpoint)
-	cp.vbIds = []uint16{0, 1}
-	cp.client = &vfakeSeqClient{high: [vNVB]uint64{^uint64(0), ^uint64(0)}}
+	cp.vbIds = vAssigned()
+	cp.client = &vfakeSeqClient{high: [vNVB]uint64{^uint64(0), ^uint64(0), ^uint64(0)}}
 	cp.offsetLatestSeqNoInit = vLatestInit(s2.config)
 	out, dirty, flag := cp.Load()
-	for vb := 0; vb < vNVB; vb++ {
+	for vb := 0; vb < vNV(); vb++ {
 		o, ok := out.Load(uint16(vb))
 		assert(ok, "loaded")
 		assert(o.VbUUID == in[vb].VbUUID && o.SeqNo == in[vb].SeqNo && o.StartSeqNo == in[vb].StartSeqNo && o.EndSeqNo == in[vb].EndSeqNo,
@@ -154,6 +155,7 @@ var _ = errors.New
 // not lose the persisted checkpoint of the others: the next session resumes
 // every assigned vBucket exactly at its last persisted position.
 func H_C02_wholestate() {
+	vNVcur = 2
 	setMerge(true)
 	ss := vNewSession()
 	ss.fm.wholeState = true
@@ -164,7 +166,7 @@ func H_C02_wholestate() {
 	adv := choose("advance", 2)
 	ss.deliverDoc(adv, 0, true) // only this vBucket advances
 	ss.s.checkpoint.Save()
-	for vb := 0; vb < vNVB; vb++ {
+	for vb := 0; vb < vNV(); vb++ {
 		doc, ok := ss.fm.store[uint16(vb)]
 		assert(ok && vDocIs(doc, ss.tracked(vb)), "a partial-dirty save keeps every assigned vBucket's checkpoint in a whole-state backend")
 	}
